@@ -79,6 +79,14 @@ def compile_time_effect(src):
         removable = isinstance(n, ast.Assert) or (isinstance(n, ast.If) and matcher.debug_test(n.test))
         if removable and any(isinstance(m, (ast.Yield, ast.YieldFrom, ast.Await, ast.Global, ast.Nonlocal)) for m in ast.walk(n)):
             return 'C05.removal.compile_time_effect_lost'
+    # a binding inside the dead statement still makes its name a local of the function (UnboundLocalError instead of a global / builtin lookup)
+    for f in ast.walk(tree):
+        if isinstance(f, (ast.FunctionDef, ast.AsyncFunctionDef)):
+            for n in ast.walk(f):
+                removable = isinstance(n, ast.Assert) or (isinstance(n, ast.If) and matcher.debug_test(n.test))
+                if removable and any((isinstance(m, ast.Name) and not isinstance(m.ctx, ast.Load)) or isinstance(m, (ast.alias, ast.FunctionDef, ast.AsyncFunctionDef, ast.ClassDef, ast.ExceptHandler))
+                                     for m in ast.walk(n) if m is not n):
+                    return 'C05.removal.compile_time_effect_lost'
     return None
 
 
